@@ -176,6 +176,8 @@ def check_case(case):
                 out.append(("cmp_trichotomy", "%s vs %s: lt,eq,gt = %s" % (r, a, c)))
             if v2 == va and hash(r) != hash(a):
                 out.append(("hash_mismatch", "hash(%s) != hash(%s) though both denote %s" % (r, a, va)))
+            if v2 == va and not c[1]:
+                out.append(("eq_same_value_false", "%r (= %s of %s, %s) == %r is False though both denote %s" % (r, name, a, b, a, va)))
         except Exception as e:
             out.append(("cmp_raises:%s" % type(e).__name__, "%s compared with %s raised %r" % (r, a, e)))
 
@@ -243,7 +245,7 @@ def nontrivial(case):
 
 
 PREFIXES = [-24, -21, -18, -15, -12, -9, -6, -3, -2, -1, 0, 1, 2, 3, 6, 9, 12, 15, 18, 21, 24]
-MANT_QUICK = ["0", "1", "-1", "1000", "0.001", "999.999", "1.5", "-1500",
+MANT_QUICK = ["0", "-0", "1", "-1", "1000", "0.001", "999.999", "1.5", "-1500",
               "1234567890123456789012345", "0.1234567890123456789012345"]
 MANT_FULL = MANT_QUICK + ["-1000", "-0.001", "-999.999", "1000.001", "999", "1001", "0.999", "0.0010000000000000000001",
                           "-1234567890123456789012345", "99999999999999999999.99999", "1E+3", "1.000", "10", "0.01"]
